@@ -24,4 +24,19 @@ PROPS = {
         ],
         "partial": [],
     },
+    "C16": {
+        "profiles": ["debug"],
+        "rule": "ids: exhaustive over all byte strings of length <= 2, every length 0..40 at random; each id is printed, re-parsed, upper-cased, put on the wire; "
+                "texts: canonical texts with random single edits (substitution incl. non-alphabet / non-ASCII characters, case change, deletion, insertion, dash move, truncation, dash removal), "
+                "hand-built over-long payloads, random alphabet strings of length <= 14; every request is non-trivial except to_text of an over-long id; distinct = distinct request lines",
+        "trusted": [
+            "crc32fast::hash modelled bit-serially (reflected 0xEDB88320); data_encoding::BASE32_NOPAD modelled arithmetically (big-endian number left-aligned into 5-bit digits, canonical trailing bits, lengths 1/3/6 mod 8 rejected); both validated by the correspondence on every run",
+            "the theorems treat crc32 as an arbitrary function into four bytes; only its length is used",
+        ],
+        "assumptions": [
+            "strings cross the protocol as UTF-8 hex; the model works on Unicode scalar lists, the Rust on bytes (non-ASCII input is rejected as invalid base32 on both sides)",
+            "serde impls of Principal are not modelled; the Candid wire form is (op pr.wire)",
+        ],
+        "partial": [],
+    },
 }
